@@ -107,6 +107,28 @@ TA(regs, cur, total, count) ==
 \* abstract result of an up-to access of c bytes at a (c > 0)
 UpTo(regs, a, c) == LET n == Run(regs, a, c) IN IF n = 0 THEN Err("InvalidGuestAddress") ELSE OkN(n)
 
+\* ---- the public try_access with a CLIENT callback -------------------------------------------
+\* The callback answers from a script of replies, one per call: "full" (the chunk it was offered), "n" k (it claims
+\* k >= 1 bytes, possibly more than it was offered), "zero", "err"; an exhausted script answers "full".  The result
+\* carries every call the callback received: bytes done so far, chunk length, region-relative start, region base.
+RECURSIVE TACb(_, _, _, _, _, _)
+TACb(regs, cur, total, count, sc, calls) ==
+    LET i == Owner(regs, cur) IN
+    IF i = 0 THEN [res |-> IF total = 0 THEN "InvalidGuestAddress" ELSE "ok", n |-> total, calls |-> calls]
+    ELSE LET start == cur - regs[i].s
+             len == Min(regs[i].n - start, count - total)
+             rep == IF sc = <<>> THEN [b |-> "full"] ELSE Head(sc)
+             rest == IF sc = <<>> THEN <<>> ELSE Tail(sc)
+             cs == Append(calls, [total |-> total, len |-> len, start |-> start, rs |-> regs[i].s])
+             k == IF rep.b = "full" THEN len ELSE IF rep.b = "n" THEN rep.k ELSE 0
+         IN  IF rep.b = "err" THEN [res |-> "IOError", n |-> total, calls |-> cs]
+             ELSE IF k = 0 THEN [res |-> "ok", n |-> total, calls |-> cs]
+             ELSE IF total + k > count THEN [res |-> "CallbackOutOfRange", n |-> total, calls |-> cs]
+             ELSE IF total + k = count THEN [res |-> "ok", n |-> count, calls |-> cs]
+             ELSE IF cur + k > WORD THEN [res |-> "GuestAddressOverflow", n |-> total + k, calls |-> cs]
+             ELSE IF cur + k = WORD THEN [res |-> "ok", n |-> total + k, calls |-> cs]
+             ELSE TACb(regs, cur + k, total + k, count, rest, cs)
+
 \* ---- C14: guest-level transfers against a scripted stream ------------------------------------
 \* read_volatile_from: try_access with callback region.read_volatile_from (one logical call per chunk)
 \* returns [res |-> "ok"|"err"|"inv", n |-> bytes moved]
@@ -279,6 +301,10 @@ Apply(s, op, a) ==
          LET r == regs[a.ri] IN
          IF a.addr > r.n THEN Res(s, Err("InvalidBackendAddress"))
          ELSE LET n == Min(r.n - a.addr, a.count) IN Res(s, OkD(n, Sub(r.mem, a.addr, n)))
+    [] op = "try_access_cb" ->
+         LET x == TACb(regs, a.addr, 0, a.count, a.script, <<>>) IN
+         IF x.res = "ok" THEN Res(s, [k |-> "ok", n |-> x.n, calls |-> x.calls])
+         ELSE Res(s, [k |-> "err", e |-> x.res, ek |-> x.res, calls |-> x.calls])   \* (ek: compared exactly; e: reported as drift)
        \* ---------------- C14: scripted streams, guest level ----------------
     [] op \in {"s_read_from", "s_read_exact_from"} ->
          LET x == SRead(regs, a.addr, 0, a.count, a.script)
